@@ -60,8 +60,11 @@ def assumptions(prop, summarised, axioms):
 
 PROP_MODELS = {
     'C03': ['numpy.poly1d'],
+    'C19': ['numpy.poly1d', 'numpy.roots'],
 }
 
 PROP_NOTES = {
+    'C19': ["per-shape: proofs for degrees/lengths 0..8 (rational_limit degrees 0..4), no claim beyond",
+            "that the quotient of the first non-vanishing Taylor coefficients is the limit of f/g is assumed mathematics"],
     'C03': ["clause 'numerically to within rounding' is covered only by the bounded companion (coverage.bounded), never counted as proved"],
 }
